@@ -18,6 +18,10 @@ theorem post_eq (cfg : Cfg) (r : Run) :
     cases interval with
     | some i => cases sharp <;> simp
     | none => cases idle <;> simp
+  | failed =>
+    cases interval with
+    | some i => cases sharp <;> simp
+    | none => cases idle <;> simp
 
 /-- the idle gate's loop condition and sleep argument -/
 theorem idle_cond_eq (a : GateAtoms) : Extracted.idleCond a = idleCond a := rfl
@@ -28,6 +32,10 @@ theorem poll_delay_eq (a : GateAtoms) : Extracted.pollDelay a = pollDelay a := r
 
 /-- the statement skeleton of `_timer` (prologue and loop body, in order) -/
 theorem shape_eq : Extracted.prologue = prologue ∧ Extracted.loopBody = loopBody := by decide
+
+/-- every loop of `_timer` has `not stopper.is_set()` in its condition: setting the stopper ends the
+    task before any further run (the model's run sequences are prefixes) -/
+theorem stopper_guards_eq : Extracted.stopperGuards = stopperGuards := by decide
 
 /-- One iteration of the model's idle gate is one iteration of the extracted loop: test the extracted
     condition on what is read, sleep the extracted delay (always positive there) from `t`. -/
